@@ -24,6 +24,15 @@ def build_inputs(chk, mdl):
     wide = sorted(wide)
     return nstates, suite, rnd, corpus, narrow, wide
 
+def full_alphabet_suite(chk, mdl, have):
+    """quick tier only: the same suite with EVERY ASCII character (and 128, 200, 255) after every access string, so that a single
+    character handled differently from the rest of its class (a dropped or misplaced case label) cannot hide behind the
+    one-representative-per-class suite; run on one entry point"""
+    if chk.tier != "quick": return []
+    _, full = parsesuite.automaton_suite(mdl, 1)
+    have = set(have)
+    return [f for f in full if f not in have]
+
 def run(chk):
     proofs = lib.check_proofs(PID)
     exes = lib.build_impl()
@@ -31,9 +40,10 @@ def run(chk):
     nstates, suite, rnd, corpus, narrow, wide = build_inputs(chk, mdl)
     # request sets
     all_entries = [0, 1, 2, 3, 4, 5]
+    full = full_alphabet_suite(chk, mdl, narrow)
     plan = {
-        "A": [(narrow, all_entries)],
-        "W": [(narrow, all_entries), (wide, [3, 2, 0])],
+        "A": [(narrow, all_entries), (full, [3])],
+        "W": [(narrow, all_entries), (wide, [3, 2, 0]), (full, [3])],
         "A_asan": [(narrow, [3, 2])],
         "W_asan": [(narrow, [3, 4]), (wide, [3])],
     }
@@ -98,8 +108,8 @@ def run(chk):
     chk.cov["states"] = nstates
     chk.cov["rule"] = ("conformance suite from the model's control automaton (%d reachable states; access string x %s x {empty, accepting completion}), "
                        "grammar-directed URIs and single-character mutations, the repository's test strings; wide-only variants with code points >= 128; "
-                       "all six entry points; distinct by (text, verdict, error position)" % (nstates, "one character per atom" if chk.tier == "quick" else "every ASCII character + 128,200,255"))
-    chk.cov["distribution"] = {"suite": len(suite), "random": len(rnd), "corpus": len(corpus), "wide_only": len(wide),
+                       "all six entry points; distinct by (text, verdict, error position)" % (nstates, "one character per atom on all entry points, every ASCII character + 128,200,255 on the explicit-range entry point" if chk.tier == "quick" else "every ASCII character + 128,200,255"))
+    chk.cov["distribution"] = {"suite": len(suite), "full_alphabet_suite": len(full), "random": len(rnd), "corpus": len(corpus), "wide_only": len(wide),
                                "accepted(A)": accepted, "rejected(A)": rejected, "position_differs_from_first_dead_inside_literal(A)": inlit}
     chk.cov["samples"] = [{"input": show(f), "model": model_cache.get("parse %s 3" % f)} for f in (narrow[len(narrow) // 3], narrow[len(narrow) // 2], narrow[-1], wide[0])]
     chk.cov["exhaustive"] = False
